@@ -152,6 +152,8 @@ impl Group for SecretsGroup {
         let mut st = CounterpartyCommitmentSecrets::new();
         // ledger: consecutive accepted provides from 2^48-1 (the channel's usage pattern)
         let mut ledger: Vec<(u64, [u8; 32])> = vec![];
+        // the (index, secret) last stored at each place (slot): must read back as itself until replaced
+        let mut slots: std::collections::BTreeMap<usize, (u64, [u8; 32])> = Default::default();
         let mut consecutive = true;
         let (mut acc, mut rej) = (false, false);
         for (i, op) in ops.iter().enumerate() {
@@ -160,6 +162,7 @@ impl Group for SecretsGroup {
                 ["new"] => {
                     st = CounterpartyCommitmentSecrets::new();
                     ledger.clear();
+                    slots.clear();
                     consecutive = true;
                     format!("ok {}", digest(&st))
                 }
@@ -177,6 +180,12 @@ impl Group for SecretsGroup {
                         Ok((c, Err(()))) => {
                             rej = true;
                             co.tags.insert("provide:err".into());
+                            // independent re-statement of the acceptance rule: position within the store and every
+                            // lower slot derivable from the offered secret ⇒ must be accepted
+                            let pos = (0..48).find(|b| idx >> b & 1 == 1).unwrap_or(48) as usize;
+                            if pos <= before.len() && before.iter().take(pos).all(|(os, oi)| derive(s, pos as u32, *oi) == *os) {
+                                co.violations.push(Violation { kind: "c03-store-rejected-consistent".into(), desc: format!("provide({}) rejected although every lower slot derives from the offered secret", idx), at: i });
+                            }
                             if store_items(&c) != before {
                                 co.violations.push(Violation { kind: "c03-store-changed-on-reject".into(), desc: format!("rejected provide({}) changed the store", idx), at: i });
                             }
@@ -194,6 +203,13 @@ impl Group for SecretsGroup {
                             }
                             let expect_next = ledger.last().map(|x| x.0.wrapping_sub(1)).unwrap_or(N48 - 1);
                             let changed = store_items(&c) != before;
+                            // an index that was already accepted in the consecutive regime is only re-checked, never stored again
+                            if changed && consecutive && ledger.iter().any(|(j, _)| *j == idx) {
+                                co.violations.push(Violation { kind: "c03-store-overwritten".into(), desc: format!("a repeated provide({}) changed the store", idx), at: i });
+                            }
+                            if changed {
+                                slots.insert(pos, (idx, s));
+                            }
                             if idx == expect_next && consecutive {
                                 ledger.push((idx, s));
                             } else if changed {
@@ -203,6 +219,13 @@ impl Group for SecretsGroup {
                             st = c;
                             if store_items(&st).len() > 49 {
                                 co.violations.push(Violation { kind: "c03-store-size".into(), desc: "more than 49 entries".into(), at: i });
+                            }
+                            for (p, (j, sj)) in &slots {
+                                let g = catch_unwind(AssertUnwindSafe(|| st.get_secret(*j))).ok().flatten();
+                                if g != Some(*sj) {
+                                    co.violations.push(Violation { kind: "c03-store-lost-secret".into(), desc: format!("after provide({}) get_secret({}) does not yield the secret stored at place {}", idx, j, p), at: i });
+                                    break;
+                                }
                             }
                             if consecutive {
                                 for (j, sj) in &ledger {
